@@ -392,12 +392,9 @@ int parse_instruction_6502(AsmContext *asm_context, char *instr)
           return -1;
         }
 
-        // forward label
-        if (num == 0)
-        {
-          int worst_case = asm_context->memory_read(asm_context->address);
-          if (worst_case == 1) { size = 16; }
-        }
+        // A forward label with no forced size was already widened to 16 bit
+        // by get_address() in both passes. A size forced with .b, .w, < or !
+        // has to be honored in pass 1 too or the passes disagree.
 
         if (size == 8)
         {
